@@ -402,8 +402,8 @@ Apply(st, tok) ==
     [] k = "attlist" ->
          [st EXCEPT !.attlists = Append(@, [el |-> tok.el,
                        defs |-> [i \in 1..Len(tok.defs) |->
-                                   [n |-> tok.defs[i].n, ty |-> tok.defs[i].ty, dk |-> tok.defs[i].dk,
-                                    dv |-> StripX(tok.defs[i].dv)]]])]
+                                   [n |-> tok.defs[i].n, ty |-> tok.defs[i].ty, en |-> tok.defs[i].en,
+                                    dk |-> tok.defs[i].dk, dv |-> StripX(tok.defs[i].dv)]]])]
     [] k = "elemdecl" -> st
     [] k = "dtdend" -> IF st.phase = "dtd" THEN [st EXCEPT !.phase = "afterDtd"]
                        \* as character data it denotes "]", the style's white space, ">": not a
